@@ -1,13 +1,44 @@
+_C16_MAIN = "server"
+
 PROPS["C16"] = prop(
     "exploration",
-    "rapid-generated HTTP requests, uploads, urls and histories against reference models (request gate, recorded type, link table)",
-    "TODO",
-    "TODO",
-    "TODO",
+    "rapid-generated HTTP requests (httptest against the real largeFileReceive / largeFileServe and the fs media handler on a scratch directory), "
+    "generated uploads and hostile urls, and generated histories (uploads, publishes with attachment lists, avatar changes, deletions, collection runs on a virtual clock) "
+    "against reference models: request gate (which key / credential a request carries, by documented placement order), recorded type and active-content rule, "
+    "url reading, and a link table (holder -> listed files)",
+    "gate unit: a case is 2-7 requests against one store; non-trivial = at least one request accepted (upload stored or download served) and at least one refused in the same case; "
+    "download unit: 1-4 uploads (over HTTP, failed midway, in flight) and 1-10 odd urls; non-trivial = at least one completed upload served byte-exact and at least one request "
+    "refused (odd url, failed or in-flight upload); links unit: a history of 4-24 operations followed by a closing collection run; non-trivial = at some collection run at least one "
+    "upload older than the grace period was kept because a living message / topic / user lists it and at least one unlisted upload was collected; "
+    "distinct = FNV-64 of the case",
+    "The real HTTP handlers, getAPIKey / getHttpAuth / authHttpRequest, checkAPIKey, the token and basic authenticators, the fs media handler, store.Files / store.Messages.Save and "
+    "the real hub, topics and sessions ({pub}, {sub new}, {set desc}, {acc}, {del msg|topic|user} with extra.attachments) run on the verifmem store; collection is the statement of "
+    "largeFileRunGarbageCollection's loop body on the bubble's clock and, in a quarter of the histories, the loop itself. Every answer, the store's file table, the upload directory "
+    "and the download of every upload are compared with the models after each request / collection run. Sampled, not exhaustive.",
+    "Trusts the reference models in harness/c16, Go's net/http (multipart parsing, MaxBytesReader, ServeContent, DetectContentType — the reference for the recorded type calls "
+    "DetectContentType too), testing/synctest's clock and the verifmem adapter (link table and foreign keys written from the MySQL adapter's SQL). The S3 handler and the SQL "
+    "adapters' file methods are not executed. Handlers are called directly (no ServeMux, no gorilla CompressHandler); request targets the HTTP server would reject are skipped.",
     "5/C16", "files-http+world",
-    [Unit("TestC16Gate", "server", quick=400, thorough=20000, shards_quick=3, shards_thorough=16),
-     Unit("TestC16Download", "server", quick=400, thorough=20000, shards_quick=2, shards_thorough=16),
-     Unit("TestC16Links", "server", quick=150, thorough=7500, shards_quick=3, shards_thorough=16),
+    [Unit("TestC16Gate", _C16_MAIN, quick=4000, thorough=50000, shards_quick=4, shards_thorough=16),
+     Unit("TestC16Download", _C16_MAIN, quick=3000, thorough=28000, shards_quick=3, shards_thorough=16),
+     Unit("TestC16Links", _C16_MAIN, quick=800, thorough=10000, shards_quick=4, shards_thorough=16),
      ],
-    [],
+    ["the statement is one-directional for uploads ('act only on ...'): a valid upload that is refused cleanly (no record, no bytes) is reported under the weaker signature "
+     "gate:valid-upload-refused; an empty file is refused by the handler (500) and only counted (class empty-file-refused)",
+     "'refuse uploads above the configured size': a file larger than max_size must be refused, a request whose whole body fits must be accepted; a file that fits while the "
+     "multipart body does not may be refused (413)",
+     "key or credentials carried in a form field are unreadable when the body exceeds the limit; the request is then refused for the key / credentials (403 / 401) rather than for its size",
+     "with several credentials the first in the documented order (X-Tinode-Auth, Authorization, query, form, cookie; session id only when none of these is present) decides",
+     "an upload without credentials but with topic=newacc (avatar of an account being created) is accepted, as the handler documents",
+     "OPTIONS is answered before any check (CORS preflight) and must have no effect",
+     "recorded type: the handler sniffs a fixed 512-byte buffer, so content shorter than 512 bytes is sniffed together with zero bytes (short text becomes application/octet-stream "
+     "and then takes the client's declared type); both readings are accepted (class type:short-content-sniffed-with-zero-padding)",
+     "a url names an upload when its path, lexically cleaned, is <serve path><file id>[<non-id character>...]; a '/' inside the query string may change what the fs handler resolves "
+     "(it cleans the whole request target) — such requests must still return nothing but a completed upload, which one is not judged",
+     "attachment lists: the three documented spellings (returned url, ./name, name) must link; absolute urls, traversal spellings and urls with a query may or may not; urls of other "
+     "directories and urls naming no upload must not protect anything; for avatars the first entry naming an upload is the avatar",
+     "{del msg hard} by a user without the D permission (P2P participants) is silently a per-user deletion: the message and its links stay",
+     "soft-deleted topics: whether their files stay is not specified (either accepted); the boundary instant updatedat == cut-off is not judged",
+     "server's own collection loop (period randomised 0.75-1.25x): only windows with no other activity are judged, removals must be of unlisted uploads older than the grace period at "
+     "the window's end, and unlisted uploads older than grace + 1.25 periods must be gone (block size 0); a run that fires inside an operation cuts the case short"],
 )
